@@ -103,6 +103,10 @@ def ob_include(chk, P):
                                     if (val.variant == 'Err') != any(o[2] == 'err' for o in outs): bad = f'result {val.variant} vs partial outcome {outs}'
                                     owners = s2.env.get('interrupt_owners', ())
                                     if any(o != 'P' for o in owners): bad = f'an interrupt raised in the partial went to registers {owners}, not the caller\'s'
+                                    if not bad and outs:
+                                        left = outs[-1][3]                      # what the partial left pending: None / 'Break' / 'Continue'
+                                        now = interrupt_get(s2, 'P')
+                                        if now != left: bad = f'the partial left interrupt {left} pending, after include the caller\'s register holds {now} (a break/continue inside an included partial must reach the caller\'s loop)'
                             else:
                                 if kids: bad = f'partial rendered although name_kind={name_kind} arg_fail={arg_fail} present={present}'
                                 elif val.variant != 'Err': bad = f'returned Ok without rendering (name_kind={name_kind} arg_fail={arg_fail} present={present}): silent blank'
